@@ -10,20 +10,24 @@ Print Assumptions C19_check_sound.
 
 (* ---- main theorem: on the proved class the model satisfies the property (ids each once and nothing else,
         duplicate ids reported k-1 times, errors exactly when a revision file cannot be imported / bad separator) *)
-Theorem C19_main_partial : forall i, inclass_C19 i = true -> C19_holds i (load_revisions i).
+Theorem C19_main_partial : forall i, wf_tree (i_tree i) = true -> (i_sl i = true -> no_live_pyo (i_tree i) = true) ->
+  C19_holds i (load_revisions i).
 Proof. exact main. Qed.
 Print Assumptions C19_main_partial.
+Theorem C19_main_inclass : forall i, inclass_C19 i = true -> C19_holds i (load_revisions i).
+Proof. exact main_inclass. Qed.
+Print Assumptions C19_main_inclass.
 
 (* ---- exactly once: for every well-formed tree, every list of configured locations (existing or not, nested,
         repeated, symlinked), recursive or not, sourceless or not *)
-Theorem C19_exactly_once_partial : forall T sl rec ps ob,
-  wf_tree T = true -> (sl = true -> no_foreign_shadow T = true) ->
+Theorem C19_exactly_once : forall T sl rec ps ob,
+  wf_tree T = true ->
   load_from T sl rec (flat_map (resolve_loc T) ps) = Ok ob ->
   exists ids, expected_from T sl rec (flat_map (resolve_loc T) ps) = Ok ids /\ Permutation (o_ids ob) ids.
 Proof. exact exactly_once. Qed.
-Print Assumptions C19_exactly_once_partial.
+Print Assumptions C19_exactly_once.
 
-(* without the hypothesis: whatever is loaded is an expected revision file, and no file is loaded twice *)
+(* as files: whatever is loaded is an expected revision file, and no file is loaded twice *)
 Theorem C19_nothing_else : forall T sl rec ps ob,
   wf_tree T = true -> load_from T sl rec (flat_map (resolve_loc T) ps) = Ok ob ->
   exists files, o_ids ob = map idN files /\ NoDup files /\
@@ -41,16 +45,6 @@ Definition s_v1 : str := [118;49].
 Definition s_setup : str := [115;101;116;117;112;46;112;121].                                  (* setup.py *)
 Definition dflt : list (option path) := [Some [s_sd; s_versions]].
 
-(* FINDING 1: sourceless, versions/x.txt next to versions/__pycache__/x.cpython-312.pyc: the revision is skipped *)
-Definition T_shadow : node :=
-  Dir [(s_sd, Dir [(s_versions, Dir [(s_x_txt, File (Some 1)); (s_pycache, Dir [(s_x_cache, File (Some 2))])])])].
-Theorem C19_exactly_once_refuted : exists T ps ob ids,
-  wf_tree T = true /\ load_from T true false (flat_map (resolve_loc T) ps) = Ok ob /\
-  expected_from T true false (flat_map (resolve_loc T) ps) = Ok ids /\ ~ Permutation (o_ids ob) ids.
-Proof. exists T_shadow, dflt, (mkObs [] 0 []), [2]. repeat split; try (vm_compute; reflexivity).
-  cbn [o_ids]. intro H. apply Permutation_nil in H. discriminate. Qed.
-Print Assumptions C19_exactly_once_refuted.
-
 (* ---- no error: if every expected revision file is importable the load succeeds *)
 Theorem C19_no_error_partial : forall T sl rec ps ids,
   wf_tree T = true -> (sl = true -> no_live_pyo T = true) ->
@@ -59,25 +53,13 @@ Theorem C19_no_error_partial : forall T sl rec ps ids,
 Proof. exact no_error. Qed.
 Print Assumptions C19_no_error_partial.
 
-(* FINDING 2: sourceless, a lone versions/x.pyo: a version file by the documentation, the load fails *)
+(* FINDING (open): sourceless, a lone versions/x.pyo: a version file by the documentation, the load fails *)
 Definition T_pyo : node := Dir [(s_sd, Dir [(s_versions, Dir [(s_x_pyo, File (Some 1))])])].
 Theorem C19_no_error_refuted : exists T ps ids,
   wf_tree T = true /\ expected_from T true false (flat_map (resolve_loc T) ps) = Ok ids /\
   load_from T true false (flat_map (resolve_loc T) ps) = Err ELoad.
 Proof. exists T_pyo, dflt, [1]. repeat split; vm_compute; reflexivity. Qed.
 Print Assumptions C19_no_error_refuted.
-
-(* FINDING 3: version_locations = "v1 " (legacy splitting): the blank item is the working directory, ./setup.py is
-   loaded as a revision *)
-Definition i_blank : input :=
-  mkInput SepNone (Some [118;49;32]) false false
-          (Dir [(s_sd, Dir []); (s_v1, Dir [(s_a_py, File (Some 1))]); (s_setup, File (Some 2))]).
-Theorem C19_main_refuted : exists i, wf_tree (i_tree i) = true /\ i_sl i = false /\ ~ C19_holds i (load_revisions i).
-Proof. exists i_blank. repeat split; try reflexivity.
-  assert (E1 : load_revisions i_blank = Ok (mkObs [1; 2] 0 [])) by (vm_compute; reflexivity).
-  assert (E2 : expected i_blank = Ok [1]) by (vm_compute; reflexivity).
-  unfold C19_holds. rewrite E1, E2. cbn [o_ids]. intros [H _]. apply Permutation_length in H. discriminate. Qed.
-Print Assumptions C19_main_refuted.
 
 (* ---- a source wins over its compiled forms; a .pyc wins over a .pyo *)
 Theorem C19_source_wins : forall T sl rec ps ob,
@@ -91,7 +73,7 @@ Print Assumptions C19_source_wins.
 (* ---- locations reaching the same real paths again (repeated, nested, through a link): same revisions, and at
         least one "loaded twice" warning per path listed again *)
 Theorem C19_dedupe : forall T sl rec ps ps2 ob ob',
-  wf_tree T = true -> (sl = true -> no_foreign_shadow T = true) -> incl ps2 ps ->
+  wf_tree T = true -> incl ps2 ps ->
   load_from T sl rec (flat_map (resolve_loc T) ps) = Ok ob ->
   load_from T sl rec (flat_map (resolve_loc T) (ps ++ ps2)) = Ok ob' ->
   Permutation (o_ids ob) (o_ids ob')
@@ -104,11 +86,15 @@ Theorem C19_duplicate_id : forall ids x, count x (dup_ids [] ids) = pred (count 
 Proof. exact duplicate_id. Qed.
 Print Assumptions C19_duplicate_id.
 
-(* ---- version_locations splitting: when the code's items contain no blank one they are exactly the documented items,
-        for every version_path_separator *)
-Theorem C19_split_clean : forall sp s vl, split_locations sp (Some s) = Ok (Some vl) -> ~ In [] vl ->
-  spec_locations sp (Some s) = Ok (version_locations (Some vl)).
-Proof. exact split_clean. Qed.
+(* ---- version_locations splitting: the code's items are exactly the documented items (blank items dropped), for
+        every version_path_separator and every string *)
+Theorem C19_split_clean : forall sp s,
+  match split_locations sp s, spec_locations sp s with
+  | Ok vl, Ok ps => version_locations vl = ps
+  | Err a, Err b => a = b
+  | _, _ => False
+  end.
+Proof. exact split_full. Qed.
 Print Assumptions C19_split_clean.
 
 (* ---- characterisation of the two file-name patterns as modelled *)
@@ -116,6 +102,17 @@ Theorem C19_rev_file_names : forall sl nm,
   match_rev_file sl nm = if is_rev_name sl nm then Some (match kind_of nm with KSrc => nm | _ => removelast nm end, kind_of nm) else None.
 Proof. exact match_rev_file_spec. Qed.
 Print Assumptions C19_rev_file_names.
+
+(* ---- the witnesses of the two repaired findings now satisfy the property *)
+Definition T_shadow : node :=
+  Dir [(s_sd, Dir [(s_versions, Dir [(s_x_txt, File (Some 1)); (s_pycache, Dir [(s_x_cache, File (Some 2))])])])].
+Definition i_blank : input :=
+  mkInput SepNone (Some [118;49;32]) false false
+          (Dir [(s_sd, Dir []); (s_v1, Dir [(s_a_py, File (Some 1))]); (s_setup, File (Some 2))]).
+Example C19_repaired_witnesses :
+  load_from T_shadow true false (flat_map (resolve_loc T_shadow) dflt) = Ok (mkObs [2] 0 []) /\
+  load_revisions i_blank = Ok (mkObs [1] 0 []) /\ expected i_blank = Ok [1].
+Proof. repeat split; vm_compute; reflexivity. Qed.
 
 (* ---- non-vacuity: a tree with source + compiled + __pycache__ + junk + file link + directory link, three locations
         (one of them the link), ":" separator with blanks around items, recursive, sourceless — satisfies every
@@ -135,7 +132,7 @@ Example C19_main_nonvacuous :
 Proof. repeat split; vm_compute; reflexivity. Qed.
 Definition ps_rich : list (option path) := [Some [s_sd; s_versions]; Some [s_v1]; Some [[108]]].
 Example C19_exactly_once_nonvacuous :
-  wf_tree T_rich = true /\ no_foreign_shadow T_rich = true /\ no_live_pyo T_rich = true /\
+  wf_tree T_rich = true /\ no_live_pyo T_rich = true /\
   load_from T_rich true true (flat_map (resolve_loc T_rich) ps_rich) = Ok (mkObs [1; 5; 4; 5] 3 [5]) /\
   expected_from T_rich true true (flat_map (resolve_loc T_rich) ps_rich) = Ok [1; 4; 5; 5].
 Proof. repeat split; vm_compute; reflexivity. Qed.
